@@ -225,7 +225,7 @@ theorem locate_inPool {s : State} {k i : Nat} {p : Pool} {w : Resv} (h : s.locat
     subst h1; subst h2; subst h3
     exact ⟨hp, hf, (findSlot_some hf).1⟩
   · rw [hloc] at h; injection h with h; cases h
-  · rw [hloc] at h; cases h
+  · rw [hloc.1] at h; cases h
 
 /-! ### the abstract view: memory object ↦ bytes -/
 
@@ -313,5 +313,145 @@ theorem step_packing_slots {c : Cfg} (hc : c.Fixed) {s : State} (h : SInv s) (op
         rcases pool_index hq with rfl | rfl
         · exact slots_update hq hsl rfl (by other_pools) hp hp'
         · exact slots_update hq hsl rfl (by other_pools) hp hp'
+
+/-! ### releasing everything -/
+
+theorem eraseMem_no_slot {k : Nat} {l : List DMem} (hn : (l.map (·.slot)).Nodup) :
+    ∀ x ∈ eraseMem k l, x.slot ≠ k := by
+  induction l with
+  | nil => intro x hx; simp [eraseMem] at hx
+  | cons y ys ih =>
+    rw [List.map_cons, List.nodup_cons] at hn
+    intro x hx
+    unfold eraseMem at hx
+    split at hx
+    · rename_i hy
+      intro e
+      exact hn.1 (List.mem_map.2 ⟨x, hx, by rw [e, hy]⟩)
+    · rename_i hy
+      rcases List.mem_cons.1 hx with rfl | hx
+      · exact hy
+      · exact ih hn.2 x hx
+
+/-- after releasing slot `k` no device memory has slot `k`, and nothing new appears -/
+theorem release_mems {c : Cfg} {s : State} (h : SInv s) (k : Nat) :
+    ∀ m ∈ (s.release c k).mems, m ∈ s.mems ∧ m.slot ≠ k := by
+  rcases locate_cases s k with ⟨i, p, r, hloc, hp, hf⟩ | ⟨m0, hloc, hm0⟩ | hloc
+  · have hst : (s.release c k).mems = s.mems := by
+      unfold State.release; rw [hloc]
+      rcases pool_index hp with rfl | rfl <;> rfl
+    intro m hm
+    rw [hst] at hm
+    refine ⟨hm, fun e => ?_⟩
+    have := h.cross m hm i p hp
+    rw [e, hf] at this; cases this
+  · have hst : (s.release c k).mems = eraseMem k s.mems := by
+      unfold State.release; rw [hloc]
+      simp only []
+      split
+      · rfl
+      · cases findBuf m0.buf s.bufs <;> rfl
+    intro m hm
+    rw [hst] at hm
+    exact ⟨mem_eraseMem hm, eraseMem_no_slot h.memSlots m hm⟩
+  · have hst : s.release c k = s := by unfold State.release; rw [hloc.1]
+    intro m hm
+    rw [hst] at hm
+    exact ⟨hm, findMem_none hloc.2 m hm⟩
+
+theorem releaseAllFrom_mems {c : Cfg} (hc : c.Fixed) :
+    ∀ (n : Nat) (s : State), SInv s → n ≤ NSLOT → (∀ m ∈ s.mems, NSLOT - n ≤ m.slot) →
+      (releaseAllFrom c s n).mems = [] := by
+  intro n
+  induction n with
+  | zero =>
+    intro s h _ hlow
+    unfold releaseAllFrom
+    apply List.eq_nil_iff_forall_not_mem.2
+    intro m hm
+    have := hlow m hm
+    have := h.memBelow m hm
+    omega
+  | succ n ih =>
+    intro s h hn hlow
+    unfold releaseAllFrom
+    by_cases hl : s.slotLive (NSLOT - (n + 1)) = true
+    · rw [if_pos hl]
+      apply ih _ (release_inv hc h _).1 (by omega)
+      intro m hm
+      have := release_mems (c := c) h (NSLOT - (n + 1)) m hm
+      have := hlow m this.1
+      omega
+    · rw [if_neg hl]
+      apply ih _ h (by omega)
+      intro m hm
+      have h1 := hlow m hm
+      have hf : s.slotLive (NSLOT - (n + 1)) = false := by
+        cases hh : s.slotLive (NSLOT - (n + 1)) with
+        | false => rfl
+        | true => exact absurd hh hl
+      have := findMem_none (slotLive_false hf).2 m hm
+      omega
+
+theorem freePool_mems (s : State) (i : Nat) : (s.freePool i).mems = s.mems := by
+  unfold State.freePool
+  cases hp : s.pool i with
+  | none => rfl
+  | some p => rcases i with _ | _ | i <;> rfl
+
+theorem freePool_pool_self (s : State) (i : Nat) : (s.freePool i).pool i = none := by
+  unfold State.freePool
+  cases hp : s.pool i with
+  | none => exact hp
+  | some p =>
+    rcases i with _ | _ | i
+    · rfl
+    · rfl
+    · cases hp
+
+theorem freePool_pool_other (s : State) (i j : Nat) (hij : j ≠ i) : (s.freePool i).pool j = s.pool j := by
+  unfold State.freePool
+  cases hp : s.pool i with
+  | none => rfl
+  | some p =>
+    rcases i with _ | _ | i
+    · rcases j with _ | _ | j
+      · exact absurd rfl hij
+      · rfl
+      · rfl
+    · rcases j with _ | _ | j
+      · rfl
+      · exact absurd rfl hij
+      · rfl
+    · cases hp
+
+/-- no memory object, no pool ⇒ the counter is 0 -/
+theorem alloc_zero_of_released {s : State} (h : SInv s) (hm : s.mems = []) (h0 : s.pool 0 = none)
+    (h1 : s.pool 1 = none) : s.dev.alloc = 0 := by
+  have hb : s.bufs = [] := by
+    cases hbs : s.bufs with
+    | nil => rfl
+    | cons b bs =>
+      obtain ⟨m, hmm, _⟩ := h.bufLive b (by rw [hbs]; exact List.mem_cons_self)
+      rw [hm] at hmm; cases hmm
+  rw [h.account, hb, h0, h1]
+  rfl
+
+/-- `freeall` (every memory object released one by one, then both pools freed) ends with nothing
+    live and the counter at 0 -/
+theorem step_freeall {c : Cfg} (hc : c.Fixed) {s : State} (h : SInv s) :
+    (step c s .freeall).1.mems = [] ∧ (step c s .freeall).1.pool 0 = none ∧
+    (step c s .freeall).1.pool 1 = none ∧ (step c s .freeall).1.dev.alloc = 0 := by
+  have hst : (step c s .freeall).1 = ((releaseAllFrom c s NSLOT).freePool 0).freePool 1 := by simp only [step]
+  have hm : (((releaseAllFrom c s NSLOT).freePool 0).freePool 1).mems = [] := by
+    rw [freePool_mems, freePool_mems]
+    exact releaseAllFrom_mems hc NSLOT s h (Nat.le_refl _) (fun m _ => by omega)
+  have h0 : (((releaseAllFrom c s NSLOT).freePool 0).freePool 1).pool 0 = none := by
+    rw [freePool_pool_other _ 1 0 (by omega)]; exact freePool_pool_self _ 0
+  have h1 : (((releaseAllFrom c s NSLOT).freePool 0).freePool 1).pool 1 = none := freePool_pool_self _ 1
+  have hinv : SInv (((releaseAllFrom c s NSLOT).freePool 0).freePool 1) :=
+    freePool_inv (freePool_inv (releaseAllFrom_inv hc _ _ h) 0) 1
+  rw [hst]
+  exact ⟨hm, h0, h1, alloc_zero_of_released hinv hm h0 h1⟩
 
 end Occa.Pool
